@@ -52,6 +52,40 @@ fn main() {
         };
         let mut ev = json!({"id": id, "rows": snap.rows.len(), "nw": snap.witnesses.len(), "ret": ret,
                             "verify": "n/a"});
+        // "sweep": perturb-and-propagate adversary over the witnesses the LAST op
+        // allocated (sampled by the seed): one extra output line per variant
+        let mut variants: Vec<(usize, Program)> = Vec::new();
+        if let (Some(sw), Some(r), Ok(Ok(()))) = (sc.get("sweep"), &last, &composed) {
+            let max = sw.get("max").and_then(|m| m.as_u64()).unwrap_or(16) as usize;
+            let all: Vec<usize> = (r.wit_before..r.wit_after).collect();
+            let mut pick: Vec<usize> = if all.len() <= max {
+                all.clone()
+            } else {
+                let mut s = seed ^ 0x5bd1e995u64.wrapping_mul(all.len() as u64 + 1);
+                let mut p: Vec<usize> = (0..max)
+                    .map(|_| {
+                        s = s.wrapping_mul(6364136223846793005).wrapping_add(1442695040888963407);
+                        all[((s >> 33) as usize) % all.len()]
+                    })
+                    .collect();
+                // always include the first and the last few (helpers / outputs)
+                p.extend(all.iter().take(3));
+                p.extend(all.iter().rev().take(3));
+                p
+            };
+            pick.sort();
+            pick.dedup();
+            for w in pick {
+                let mut p = shown.clone();
+                let nv = snap.witnesses[w] + dusk_bls12_381::BlsScalar::from(5u64);
+                p.ops.push(json!({"op": "set_witness_opt", "w": w, "v": fe_to_json(&nv)}));
+                p.ops.push(json!({"op": "propagate", "from": r.wit_before, "pinned": [w]}));
+                if !r.ret.is_empty() {
+                    p.ops.push(json!({"op": "ret", "w": r.ret}));
+                }
+                variants.push((w, p));
+            }
+        }
         match composed {
             Err(p) => {
                 ev["res"] = json!(format!("panic:{}", p.chars().take(160).collect::<String>()));
@@ -88,5 +122,43 @@ fn main() {
             }
         }
         writeln!(out, "{}", ev).unwrap();
+
+        for (w, vp) in variants {
+            let mut c = Composer::initialized();
+            let mut lastv: Option<CallRecord> = None;
+            let composed = guarded(|| run_program_cb(&vp, &mut c, &mut |r, _| lastv = Some(r.clone())));
+            let snapv = c.verif_snapshot();
+            let retv: Vec<Value> = match &lastv {
+                Some(r) => r.ret.iter().map(|x| fe_to_json(&snapv.witnesses[*x])).collect(),
+                None => vec![],
+            };
+            let mut ev = json!({"id": id, "variant": w, "ret": retv, "verify": "n/a"});
+            match composed {
+                Ok(Ok(())) => {
+                    let pp = pps.get(&cap).expect("pp");
+                    let circ_c = ScriptedCircuit::new(prog.clone());
+                    let circ = ScriptedCircuit::new(vp.clone());
+                    match guarded(|| Compiler::compile_with_circuit(pp, b"gadget", &circ_c)) {
+                        Ok(Ok((prover, verifier))) => {
+                            let mut rng = ScriptRng::seeded(seed);
+                            let r = guarded(|| prover.prove(&mut rng, &circ));
+                            ev["res"] = json!(outcome(&r));
+                            if let Ok(Ok((proof, pis))) = &r {
+                                let v = guarded(|| verifier.verify(proof, pis));
+                                ev["verify"] = json!(outcome(&v));
+                            }
+                        }
+                        other => ev["res"] = json!(format!("compile:{}", outcome(&other))),
+                    }
+                }
+                Ok(Err(RunError::Lib(e))) => ev["res"] = json!(format!("err:{}", err_class(&e))),
+                Ok(Err(RunError::Bad(s))) => {
+                    ev["res"] = json!("bad");
+                    ev["why"] = json!(s);
+                }
+                Err(p) => ev["res"] = json!(format!("panic:{}", p.chars().take(160).collect::<String>())),
+            }
+            writeln!(out, "{}", ev).unwrap();
+        }
     }
 }
